@@ -833,3 +833,29 @@ Proof.
 Qed.
 
 End Pref.
+
+(* the status of the preferred solver depends on the abstract framework only *)
+Section PrefIndep.
+Variable L : Type.
+Variable leqb : L -> L -> bool.
+Hypothesis leqb_spec : forall x y, leqb x y = true <-> x = y.
+
+Corollary pr_status_history_independent
+  oracle1 oracle2 thr1 thr2 s1 s2 ps1 ps2 os1 os2 fuel1 fuel2 cert1 cert2 l1 l2 id s1' s2' b1 b2 c1 c2 ps1' ps2' :
+  valid_oracle oracle1 -> valid_oracle oracle2 ->
+  vreach L leqb oracle1 thr1 KPr s1 ps1 os1 -> vreach L leqb oracle2 thr2 KPr s2 ps2 os2 ->
+  af_equiv (af_of (run_ops L leqb (fresh_fw L leqb) os1)) (af_of (run_ops L leqb (fresh_fw L leqb) os2)) ->
+  get_argument L leqb (run_ops L leqb (fresh_fw L leqb) os1) l1 = Some id ->
+  get_argument L leqb (run_ops L leqb (fresh_fw L leqb) os2) l2 = Some id ->
+  dyn_query oracle1 L leqb thr1 fuel1 s1 QDS cert1 l1 ps1 = Done (s1', (b1, c1)) ps1' ->
+  dyn_query oracle2 L leqb thr2 fuel2 s2 QDS cert2 l2 ps2 = Done (s2', (b2, c2)) ps2' ->
+  b1 = b2.
+Proof.
+  intros Hv1 Hv2 Hr1 Hr2 Heq Hl1 Hl2 Hq1 Hq2.
+  destruct (pr_functional L leqb leqb_spec oracle1 Hv1 _ _ _ _ _ _ _ _ _ _ _ _ Hr1 Hl1 Hq1) as [A1 _].
+  destruct (pr_functional L leqb leqb_spec oracle2 Hv2 _ _ _ _ _ _ _ _ _ _ _ _ Hr2 Hl2 Hq2) as [A2 _].
+  cbn [fst] in A1, A2.
+  assert (E : b1 = true <-> b2 = true) by (rewrite A1, A2; apply skep_af_equiv; exact Heq).
+  destruct b1, b2; try reflexivity; [symmetry|]; apply E; reflexivity.
+Qed.
+End PrefIndep.
